@@ -310,9 +310,21 @@ pub fn any_tag(a: &Any) -> String {
     }
 }
 
+/// width of a decoded unit in UTF-8 bytes: the first UTF-16 unit of a character carries the whole character, the second
+/// unit of a surrogate pair nothing; every other element counts 1 (as in every offset kind)
+pub fn unit_w8(u: &codec::Unit) -> u32 {
+    if u.kind == "str" {
+        u.val.chars().next().map(|c| c.len_utf8() as u32).unwrap_or(0)
+    } else {
+        1
+    }
+}
+
 #[derive(Default, Clone)]
 pub struct Tags {
     pub by_tag: HashMap<String, Id>,
+    /// character units: id -> width in UTF-8 bytes (`unit_w8`)
+    pub w8: HashMap<Id, u32>,
 }
 
 impl Tags {
@@ -324,6 +336,7 @@ impl Tags {
                     if !u.val.is_empty() {
                         self.by_tag.insert(format!("s:{}", u.val), u.id);
                     }
+                    self.w8.insert(u.id, unit_w8(u));
                 }
                 "any" | "json" | "embed" => {
                     self.by_tag.insert(format!("v:{}", u.val), u.id);
@@ -338,6 +351,18 @@ impl Tags {
     pub fn of_char(&self, c: char) -> Id {
         self.by_tag.get(&format!("s:{}", c)).copied().unwrap_or((0, 0))
     }
+    /// the element ids of a string read through the public API: one per UTF-16 unit
+    pub fn of_str(&self, s: &str) -> Vec<Id> {
+        let mut ids = Vec::new();
+        for ch in s.chars() {
+            let id = self.of_char(ch);
+            ids.push(id);
+            if ch.len_utf16() == 2 {
+                ids.push((id.0, id.1 + 1));
+            }
+        }
+        ids
+    }
     pub fn of_any(&self, a: &Any) -> Id {
         self.by_tag.get(&format!("v:{}", any_tag(a))).copied().unwrap_or((0, 0))
     }
@@ -347,6 +372,8 @@ impl Tags {
 // public-API view
 
 pub struct PublicView {
+    /// the document's offset kind when the caller knows it: a text's `len` is then compared with its content (C17)
+    pub kind: Option<yrs::OffsetKind>,
     /// container key -> visible ids as read through the public API
     pub vis: BTreeMap<String, Vec<Id>>,
     /// accessor disagreements found while reading (C17)
@@ -456,25 +483,33 @@ fn walk_xml_attrs<T: ReadTxn>(txn: &T, mut attrs: Vec<(String, Out)>, prefix: &s
 pub fn walk_text<T: ReadTxn>(txn: &T, t: &TextRef, prefix: &str, tags: &Tags, pv: &mut PublicView, depth: usize) {
     let mut ids = Vec::new();
     let mut concat = String::new();
+    let mut others = 0u32;
     for d in t.diff(txn, YChange::identity) {
         match &d.insert {
             Out::Any(Any::String(s)) => {
                 concat.push_str(s);
-                for ch in s.chars() {
-                    ids.push(tags.of_char(ch));
-                    if ch.len_utf16() == 2 {
-                        let mut i = tags.of_char(ch);
-                        i.1 += 1;
-                        ids.push(i);
-                    }
-                }
+                ids.extend(tags.of_str(s));
             }
-            other => ids.push(walk_value(txn, other, tags, pv, depth + 1)),
+            other => {
+                others += 1;
+                ids.push(walk_value(txn, other, tags, pv, depth + 1))
+            }
         }
     }
     let s = t.get_string(txn);
     if s != concat {
         pv.disagreements.push(format!("text {}: get_string {:?} != diff concat {:?}", prefix, s, concat));
+    }
+    // a text's length = length of its string in the document's offset kind + one per embedded element
+    if let Some(kind) = pv.kind {
+        let expect = others
+            + match kind {
+                yrs::OffsetKind::Bytes => s.len() as u32,
+                yrs::OffsetKind::Utf16 => s.encode_utf16().count() as u32,
+            };
+        if t.len(txn) != expect {
+            pv.disagreements.push(format!("text {}: len {} != {} (string {:?} + {} embedded)", prefix, t.len(txn), expect, s, others));
+        }
     }
     pv.vis.insert(format!("{}|", prefix), ids);
 }
@@ -522,7 +557,11 @@ pub enum RootKind {
 }
 
 pub fn public<T: ReadTxn>(txn: &T, roots: &[(String, RootKind)], tags: &Tags) -> PublicView {
-    let mut pv = PublicView { vis: BTreeMap::new(), disagreements: Vec::new() };
+    public_in(txn, roots, tags, None)
+}
+
+pub fn public_in<T: ReadTxn>(txn: &T, roots: &[(String, RootKind)], tags: &Tags, kind: Option<yrs::OffsetKind>) -> PublicView {
+    let mut pv = PublicView { kind, vis: BTreeMap::new(), disagreements: Vec::new() };
     for (name, kind) in roots {
         match kind {
             RootKind::Text => {
@@ -608,8 +647,13 @@ pub fn pending<T: ReadTxn>(txn: &T) -> Pending {
 
 /// Full observation record of one replica.
 pub fn observe<T: ReadTxn>(txn: &T, roots: &[(String, RootKind)], tags: &Tags) -> Value {
+    observe_in(txn, roots, tags, None)
+}
+
+/// `kind`: the offset kind of the observed document (lengths of texts are then part of the C17 comparison)
+pub fn observe_in<T: ReadTxn>(txn: &T, roots: &[(String, RootKind)], tags: &Tags, kind: Option<yrs::OffsetKind>) -> Value {
     let s = structural(txn);
-    let p = public(txn, roots, tags);
+    let p = public_in(txn, roots, tags, kind);
     let q = pending(txn);
     let mut v = s.to_json();
     let o = v.as_object_mut().unwrap();
